@@ -162,6 +162,90 @@ class Class(object):
         return '<Class %s>' % self.qname
 
 
+def _falls_through(stmts):
+    if not stmts:
+        return True
+    last = stmts[-1]
+    if isinstance(last, (ast.Return, ast.Raise, ast.Continue, ast.Break)):
+        return False
+    if isinstance(last, ast.If) and last.orelse:
+        return _falls_through(last.body) or _falls_through(last.orelse)
+    return True
+
+
+def normalise(tree):
+    """Canonical statement shapes, so that rules see one spelling of
+    equivalent control flow (positions are kept; nothing is executed):
+
+    1. ``if not c: A else: B``            ->  ``if c: B else: A``
+    2. ``if c: <never falls through> else: B``  ->  ``if c: ...`` then B
+       (guard-clause form; also applied after 1, so an if whose else branch
+       never falls through becomes a guard on the negated test)
+    3. ``if a: if b: X`` (no else on either, the inner if alone)
+                                          ->  ``if a and b: X``
+    Each step is semantics-preserving for any program."""
+    changed = True
+    rounds = 0
+    while changed and rounds < 50:
+        changed = False
+        rounds += 1
+        for node in ast.walk(tree):
+            for fld in ('body', 'orelse', 'finalbody'):
+                blk = getattr(node, fld, None)
+                if not (isinstance(blk, list) and blk and isinstance(
+                        blk[0], ast.stmt)):
+                    continue
+                i = 0
+                while i < len(blk):
+                    st = blk[i]
+                    if isinstance(st, ast.If):
+                        t = st.test
+                        elif_chain = len(st.orelse) == 1 and isinstance(
+                            st.orelse[0], ast.If)
+                        if st.orelse and isinstance(
+                                t, ast.UnaryOp) and isinstance(
+                                    t.op, ast.Not) and not elif_chain:
+                            st.test = t.operand
+                            st.body, st.orelse = st.orelse, st.body
+                            changed = True
+                        if st.orelse and not _falls_through(st.body):
+                            rest = st.orelse
+                            st.orelse = []
+                            blk[i + 1:i + 1] = rest
+                            changed = True
+                        elif st.orelse and not _falls_through(
+                                st.orelse) and not elif_chain and \
+                                _falls_through(st.body):
+                            # else branch is the guard
+                            st.test = ast.copy_location(ast.UnaryOp(
+                                op=ast.Not(), operand=st.test), st.test)
+                            rest = st.body
+                            st.body = st.orelse
+                            st.orelse = []
+                            blk[i + 1:i + 1] = rest
+                            changed = True
+                        if not st.orelse and len(st.body) == 1 and \
+                                isinstance(st.body[0], ast.If) and not \
+                                st.body[0].orelse:
+                            inner = st.body[0]
+                            vals = []
+                            for v in (st.test, inner.test):
+                                if isinstance(v, ast.BoolOp) and isinstance(
+                                        v.op, ast.And):
+                                    vals.extend(v.values)
+                                else:
+                                    vals.append(v)
+                            st.test = ast.copy_location(ast.BoolOp(
+                                op=ast.And(), values=vals), st.test)
+                            st.body = inner.body
+                            changed = True
+                    i += 1
+            if isinstance(node, ast.Try):
+                pass
+    ast.fix_missing_locations(tree)
+    return tree
+
+
 class Module(object):
     def __init__(self, name, path, relpath, src):
         self.name = name
@@ -169,6 +253,8 @@ class Module(object):
         self.relpath = relpath
         self.src = src
         self.tree = ast.parse(src, filename=path)
+        if os.environ.get('PSA_NO_NORMALISE') != '1':
+            normalise(self.tree)
         self.imports = {}      # alias -> dotted target
         self.functions = {}    # name -> [Func]
         self.classes = {}      # name -> Class
